@@ -175,7 +175,7 @@ def _brute_dist(nodes, arcs, src):
 
 def _one(ctx, rng, k, net=None, o=None, cc_notrav=None, src=None):
     if net is None:
-        net = g.rand_topo_net(rng, dcline=rng.random() < 0.3)
+        net = g.rand_topo_net(rng, dcline=rng.random() < 0.3, coincide=rng.random() < 0.3, parallel_lines=rng.random() < 0.4)
     if o is None:
         o = _rand_opts(rng, net)
     B = [int(b) for b in net.bus.index]
@@ -206,14 +206,55 @@ def _one(ctx, rng, k, net=None, o=None, cc_notrav=None, src=None):
             impl["dist"] = {int(kk): float(v) for kk, v in ds.to_dict().items()}
         except Exception as e:
             impl["dist"] = "raise:" + type(e).__name__
+    # calc_distance_to_bus building its own graph (g=None): only respect_switches / nogobuses / notravbuses are passed on
+    try:
+        ds0 = top.calc_distance_to_bus(net, src, respect_switches=o["respect_switches"], nogobuses=o["nogobuses"],
+                                       notravbuses=o["notravbuses"])
+        impl["dist0"] = {int(kk): float(v) for kk, v in ds0.to_dict().items()}
+    except Exception as e:
+        impl["dist0"] = "raise:" + type(e).__name__
     lens = cq.lst([cq.q(float(x)) for x in net.line.length_km.values])
     term = "run_c26 %s %s %s %s %s" % (_opt_term(o), g.net_term(net, with_dcline_gens=False), lens,
                                         cq.lst([cq.nat(x) for x in cc_notrav]), cq.nat(src))
-    return {"js": js, "impl": impl, "term": term, "net": net, "o": o, "k": k}
+    o0 = {"respect_switches": o["respect_switches"], "include_lines": True, "include_impedances": True, "include_dclines": True,
+          "include_trafos": True, "include_trafo3ws": True, "nogobuses": o["nogobuses"], "notravbuses": o["notravbuses"], "multi": True,
+          "include_out_of_service": False, "include_switches": True, "trafo_length_km": None, "switch_length_km": None}
+    term0 = "run_c26 %s %s %s %s %s" % (_opt_term(o0), g.net_term(net, with_dcline_gens=False), lens, "[]", cq.nat(src))
+    term = "OL [%s; %s]" % (term, term0)
+    return {"js": js, "impl": impl, "term": term, "net": net, "o": o, "k": k, "o0": o0}
+
+
+def _judge_dist0(ctx, c, m0):
+    """calc_distance_to_bus(net, bus, respect_switches, nogobuses, notravbuses) with g=None vs the verified shortest-path
+    table on the model's default MultiGraph, and vs a brute force over the independently specified edges"""
+    js, impl, net = c["js"], c["impl"], c["net"]
+    d_impl = impl["dist0"]
+    m_graph, _, m_dist = m0[0], m0[1], m0[2]
+    ctx.corr_checked += 1
+    if isinstance(d_impl, str):
+        if not isinstance(m_graph, cq.Err) and not isinstance(m_dist, cq.Err):
+            ctx.disagreement("calc_distance_to_bus (g=None) raised %s, the model returns distances" % d_impl, js)
+        return
+    if isinstance(m_graph, cq.Err) or isinstance(m_dist, cq.Err):
+        ctx.disagreement("calc_distance_to_bus (g=None) returns %s, the model raises" % d_impl, js)
+        return
+    md = {a: float(b) for a, b in m_dist}
+    if set(md) != set(d_impl) or any(abs(md[x] - d_impl[x]) > 1e-9 for x in md):
+        ctx.disagreement("calc_distance_to_bus (g=None): impl %s model %s" % (d_impl, md), js)
+    try:
+        nodes, arcs = spec_arcs(net, c["o0"])
+    except KeyError:
+        return
+    bd = _brute_dist(nodes, arcs, js["src"])
+    if set(bd) != set(d_impl) or any(abs(float(bd[x]) - d_impl[x]) > 1e-9 for x in bd):
+        ctx.violation("spec", "calc_distance_to_bus(net, %d) is not the shortest path length over the energizing connections: %s vs %s"
+                      % (js["src"], d_impl, {x: float(v) for x, v in bd.items()}), js)
 
 
 def _judge(ctx, c, m):
     js, impl, net, o = c["js"], c["impl"], c["net"], c["o"]
+    m, m0 = m
+    _judge_dist0(ctx, c, m0)
     m_graph, m_cc, m_dist, m_nodangle, m_sym = m
     if m_nodangle is False:
         ctx.disagreement("model graph has an arc that ends at a removed node (no_dangling = false)", js)
